@@ -1,6 +1,10 @@
 package pow
 
 import (
+	_ "crypto/md5"
+	_ "crypto/sha1"
+	_ "crypto/sha256"
+	"crypto"
 	"sync"
 	"context"
 	"encoding/binary"
@@ -18,6 +22,13 @@ import (
 	"golang.org/x/crypto/blake2b"
 )
 
+func vMinInt(a, b int) int {
+	if a < b {
+		return a
+	}
+	return b
+}
+
 func nonce8(n uint64) []int {
 	var b [8]byte
 	binary.LittleEndian.PutUint64(b[:], n)
@@ -29,6 +40,17 @@ func digestFacts(data []byte) M {
 	return M{"data": vInts(data), "digest": vInts(d[:])}
 }
 
+// digestFactsH: the digest under the configured hash function (pow.Hash is a package variable: "Hash defines the hash
+// function that is used to compute the PoW digest"), computed from the hash's own constructor, not through the package
+func digestFactsH(id int, data []byte) M {
+	if id == 0 {
+		return digestFacts(data)
+	}
+	h := crypto.Hash(id).New()
+	h.Write(data)
+	return M{"data": vInts(data), "digest": vInts(h.Sum(nil))}
+}
+
 // mineChild runs one Mine call inside a child process so that a crash of the
 // process is an observation, not the end of the driver.
 func mineChild(data []byte, target float64, workers int, prior interface{}, conc ...interface{}) M {
@@ -36,6 +58,12 @@ func mineChild(data []byte, target float64, workers int, prior interface{}, conc
 		prior = []interface{}{}
 	}
 	sp := M{"data": vInts(data), "target": vFloat(target), "workers": workers, "prior": prior}
+	if len(conc) > 2 && conc[2] != nil {
+		sp["hashes"] = conc[2]
+	}
+	if len(conc) > 3 && conc[3] != nil {
+		sp["reps"] = conc[3]
+	}
 	if len(conc) > 0 && conc[0] != nil {
 		sp["conc"] = conc[0]
 	}
@@ -72,7 +100,10 @@ func mineChild(data []byte, target float64, workers int, prior interface{}, conc
 			break
 		}
 	}
-	_ = err
+	if msg == "" { // no answer and no crash report (the child could not even be started, e.g. an oversized specification): nothing to judge
+		fmt.Fprintln(os.Stderr, "verif: pow child gave neither a result nor a crash report:", err, string(outb[:vMinInt(len(outb), 300)]))
+		return M{"timeout": true}
+	}
 	return M{"crashed": true, "ok": false, "err": msg, "nonce": nonce8(0), "score": vFloat(0), "panic": "", "data_intact": true}
 }
 
@@ -87,7 +118,19 @@ func TestVerifChild(t *testing.T) {
 	}
 	data := vBytes(spec["data"])
 	target := vFloatOf(spec["target"])
+	// configuration history: the hash function in force when the Worker is made, during the earlier calls, during the call
+	hs := []int{0, 0, 0}
+	if a, ok := spec["hashes"].([]interface{}); ok && len(a) == 3 {
+		hs = []int{vIntOf(a[0]), vIntOf(a[1]), vIntOf(a[2])}
+	}
+	setHash := func(id int) {
+		if id != 0 {
+			Hash = crypto.Hash(id)
+		}
+	}
+	setHash(hs[0])
 	w := New(vIntOf(spec["workers"]))
+	setHash(hs[1])
 	// history: earlier calls on the SAME Worker with the SAME data buffer (contents overwritten in place)
 	buf := make([]byte, len(data))
 	if pr, ok := spec["prior"].([]interface{}); ok {
@@ -97,6 +140,7 @@ func TestVerifChild(t *testing.T) {
 		}
 	}
 	copy(buf, data)
+	setHash(hs[2])
 	ctxMain := context.Background()
 	if ms, ok := spec["cancel_ms"].(float64); ok { // the caller's context ends after a while (a timeout)
 		var cancelMain context.CancelFunc
@@ -133,6 +177,25 @@ func TestVerifChild(t *testing.T) {
 			nonce, err = w.Mine(context.Background(), buf, target)
 		}
 	}
+	if rp, ok := spec["reps"].(float64); ok && spec["conc"] == nil {
+		// the same call again and again, each under a fresh context of the same kind (already over, or over after a
+		// moment): the first call that answers with a nonce below the target is the one reported
+		for rep := 0; rep < int(rp); rep++ {
+			if err == nil {
+				m := append(append([]byte{}, data...), vBytes(toIface(nonce8(nonce)))...)
+				if Score(m) < target {
+					break
+				}
+			}
+			c2 := context.Background()
+			if ms, ok := spec["cancel_ms"].(float64); ok {
+				var cf context.CancelFunc
+				c2, cf = context.WithTimeout(context.Background(), time.Duration(ms*float64(time.Millisecond)))
+				defer cf()
+			}
+			nonce, err = w.Mine(c2, buf, target)
+		}
+	}
 	close(stop)
 	bg.Wait()
 	out := M{"ok": err == nil, "err": fmt.Sprint(err), "nonce": nonce8(nonce), "panic": "", "data_intact": string(buf) == string(data)}
@@ -165,8 +228,19 @@ func runF(op string, in M) (M, M) {
 		return M{"score": vFloat(s), "panic": p}, digestFacts(msg[:len(msg)-8])
 	case "pow.Mine":
 		data := vBytes(in["data"])
-		out := mineChild(data, vFloatOf(in["target"]), vIntOf(in["workers"]), in["prior"], in["conc"], in["cancel_ms"])
-		return out, digestFacts(data)
+		out := mineChild(data, vFloatOf(in["target"]), vIntOf(in["workers"]), in["prior"], in["conc"], in["cancel_ms"], in["hashes"], in["reps"])
+		hid := 0
+		if a, ok := in["hashes"].([]interface{}); ok && len(a) == 3 {
+			hid = vIntOf(a[2])
+			if hid == 0 { // the call runs under whatever was configured last
+				for _, x := range a {
+					if vIntOf(x) != 0 {
+						hid = vIntOf(x)
+					}
+				}
+			}
+		}
+		return out, digestFactsH(hid, data)
 	case "pow.required": // white box: the number of zeros Mine will look for
 		ln := vIntOf(in["len"])
 		target := vFloatOf(in["target"])
@@ -258,6 +332,26 @@ func TestVerifDriver(t *testing.T) {
 	r := vRand(11)
 	n := vEnvInt("VERIF_N", 24)
 	maxK := vEnvInt("VERIF_MAXK", 5)
+	// contexts that are over before the call, or a moment into it - many calls each: the cancellation error or a nonce that
+	// meets the target for THIS data, whatever the watcher, the workers and the digest computation were doing when it ended
+	for i, ms := range []float64{0, 0, 0.01, 0.05, 0.2} {
+		data := make([]byte, []int{9, 200, 20000, 19, 3000}[i])
+		r.Read(data)
+		emit("pow.Mine", M{"data": vInts(data), "target": vFloat(math.Pow(3, 4) / float64(len(data)+8)), "workers": 1 + i%2, "cancel_ms": ms, "reps": 300})
+	}
+	// the configured hash function (pow.Hash) changes during the life of the process: before the Worker is made, between
+	// calls on one Worker, to functions with the same and with shorter digests; Score and Mine follow the variable
+	{
+		b2, s256, s224, s1, md5id := int(crypto.BLAKE2b_256), int(crypto.SHA256), int(crypto.SHA224), int(crypto.SHA1), int(crypto.MD5)
+		for i, hh := range [][]int{{0, 0, s256}, {0, b2, s224}, {s224, s224, s224}, {0, 0, s1}, {s256, s256, b2}, {0, b2, md5id}, {s1, s1, s256}, {s256, 0, 0}} {
+			data := make([]byte, 5+3*i)
+			r.Read(data)
+			p1 := make([]byte, len(data))
+			r.Read(p1)
+			emit("pow.Mine", M{"data": vInts(data), "target": vFloat(math.Pow(3, float64(3+i%3)) / float64(len(data)+8)), "workers": 1 + i%3,
+				"prior": [][]int{vInts(p1)}, "hashes": hh})
+		}
+	}
 	for k := 0; k < n; k++ {
 		data := make([]byte, []int{0, 1, 2, 7, 19, 73, 100, 235}[r.Intn(8)])
 		r.Read(data)
